@@ -165,6 +165,24 @@ def vbs_write_events(recs, blocked, fins=('close',), api='class', fileobj=None):
         return events, data
     f = fileobj if fileobj is not None else io.BytesIO()
     fins = list(fins)
+    if api == 'class2':
+        # second realisation of the same history: the records are written outside any with-block, every
+        # context-manager exit is a real `with writer: pass` (entered after whatever happened before)
+        w = mciipm.VbsWriter(f, blocked=blocked)
+        for r in recs:
+            w.write(r)
+        for x in fins:
+            if x == 'exit':
+                with w:
+                    pass
+            else:
+                w.close()
+        for x in fins:
+            events.append(ev('fin', 1 if x == 'close' else 2))
+        f.seek(0)
+        data = f.read()
+        events.append(ev('file', 0, '', data))
+        return events, data
     if 'exit' in fins:
         k = fins.index('exit')
         with mciipm.VbsWriter(f, blocked=blocked) as w:
